@@ -181,4 +181,52 @@ theorem reqList_ok (s : State) (l : List BlockReq) (h : s.chain ≠ .items 0) : 
     obtain ⟨keep, outs⟩ := r
     cases o <;> exact ⟨_, rfl⟩
 
+/-! ### inputs (definitions used by the property statements of Props/C33.lean) -/
+
+/-- everything a peer can trigger, including the later background processing of stored input -/
+inductive Input where
+  | lt (i : LtIn)                       -- light block on the pubsub topic
+  | pendTick                            -- one tick of pendBlockLoop
+  | blockReq (r : BlockReq)             -- peer message: block request
+  | reqTick                             -- one tick of blockRequestLoop
+  | blockResp (decodable : Bool) (key : String)
+  | block (key : String)                -- full block that passed validateBlock
+  | deniedTick                          -- one tick of manageDeniedPeer
+  | dlOld (rd : ReadRes) (hasMessage : Bool) (start end_ : Int)
+  | dlNew (rd : ReadRes) (start end_ : Int)
+  | dlReply (r : DlReply)
+  | version (rd : ReadRes) (sameChannel addrOk : Bool)
+  | peerInfo (old : Bool) (rd : ReadRes)
+
+/-- (path the input runs on, did it panic) -/
+def runInput (s : State) : Input → Path × Bool
+  | .lt i => (.recvLt, (recvLt s i).isPanic)
+  | .pendTick => (.pendTick, (tick s).isPanic)
+  | .blockReq r => (.recvReq, (recvReq s r).isPanic)
+  | .reqTick => (.reqTick, (reqTick s).isPanic)
+  | .blockResp _ _ => (.recvResp, false)
+  | .block _ => (.recvResp, false)
+  | .deniedTick => (.deniedTick, (deniedTick s).isPanic)
+  | .dlOld rd hm a b => (.dlOld, (dlOld s.chain rd hm a b).isPanic)
+  | .dlNew rd a b => (.dlNew, (dlNew s.chain rd a b).isPanic)
+  | .dlReply r => (.dlReply, (dlReply r).isPanic)
+  | .version rd sc ao => (.version, (version rd sc ao).isPanic)
+  | .peerInfo o rd => (.peerInfo, (peerInfo o rd).isPanic)
+
+/-- the process is still alive after the input -/
+def nodeSurvives (s : State) (i : Input) : Bool :=
+  let r := runInput s i
+  !r.2 || recovered r.1
+
+/-- state changes a peer / the environment can cause -/
+def applyInput (s : State) : Input → State
+  | .lt i => (recvLtTotal s i).1
+  | .pendTick => match tick s with | .ok (s', _) => s' | .panic => s
+  | .blockReq r => match recvReq s r with | .ok (s', _) => s' | .panic => s
+  | .reqTick => match reqTick s with | .ok (s', _) => s' | .panic => s
+  | .blockResp d k => (recvResp s d k).1
+  | .block k => recvBlock s k
+  | .deniedTick => match deniedTick s with | .ok s' => s' | .panic => s
+  | _ => s
+
 end C33
